@@ -159,6 +159,23 @@ def xml_history_case(idx, payload):
             dd = streams.first_diff(outs[0][1], outs[k][1]) if outs[0][0] == outs[k][0] == "ok" else dict(expected=str(outs[0])[:200], got=str(outs[k])[:200])
             res["bad"] = dict(what="with Doxygen XML, a new wrapper object produces other output than the first one did for the same input",
                               input=text, documented_overloads=n_doc, **dd)
+            return res
+        # the XML folder is an INPUT: when its files change between two generations of one process (an edited comment, a class
+        # file that did not exist before), a new wrapper object reads what is on disk now
+        if outs[0][0] == "ok":
+            xml = open(os.path.join(d, "classA.xml")).read()
+            open(os.path.join(d, "classA.xml"), "w").write(xml.replace("Overload number", "Revised wording"))
+            w = PybindWrapper(module_name="m", top_module_namespaces=[''], use_boost_serialization=False, ignore_classes=[],
+                              module_template=streams.TPL_MIN, xml_source=d)
+            try:
+                again = ("ok", w.wrap_file(text, module_name="m"))
+            except Exception as e:  # noqa
+                again = ("err", classify_exc(e))
+            want = ("ok", outs[0][1].replace("Overload number", "Revised wording"))
+            if again != want:
+                dd = streams.first_diff(want[1], again[1]) if again[0] == "ok" else dict(expected=want[1][:200], got=str(again)[:200])
+                res["bad"] = dict(what="with Doxygen XML edited between two generations of one process, the second generation does not show the documentation that is on disk",
+                                  input=text, documented_overloads=n_doc, **dd)
     finally:
         shutil.rmtree(d, ignore_errors=True)
     return res
@@ -345,6 +362,39 @@ def parallel_check(ctx, seed, nproc):
         extra = set(os.listdir(base)) - {"t.tpl"} - {"in%d.i" % j[0] for j in jobs} - {"out%d.cpp" % j[0] for j in jobs}
         if extra:
             ctx.spec_fail("parallel wrapper processes left unrequested files", files=sorted(extra))
+        # second phase: the `--is_submodule` steps of ONE module (same --module_name, as PybindWrap.cmake starts them) at once in a
+        # build directory that holds other files: each step writes <stem>.cpp and touches nothing else
+        sub = os.path.join(base, "subs")
+        os.makedirs(sub)
+        bystanders = {"robotics.cpp.tmp": "scratch of somebody else\n", "CMakeCache.txt": "CMAKE\n", "part0.cpp.tmp": "x\n", "robotics.cpp": "// main module\n"}
+        for k, v in bystanders.items():
+            open(os.path.join(sub, k), "w").write(v)
+        sjobs = []
+        for i in range(max(4, nproc // 2)):
+            m, text = gen_text(rng, dict(max_depth=1), serializable=0.3)
+            api = impl_pybind(text, streams.TPL_MIN, "part%d" % i, [''], True, [], None)
+            if api[0] != "ok":
+                continue
+            src = os.path.join(base, "part%d.i" % i)
+            open(src, "w", encoding="utf-8").write(text)
+            sjobs.append((i, text, api[1], [os.path.join(REPO, "scripts", "pybind_wrap.py"), "--src", src, "--module_name", "robotics",
+                                             "--out", "robotics.cpp", "--template", tpl, "--use-boost-serialization", "--is_submodule"]))
+        with concurrent.futures.ThreadPoolExecutor(len(sjobs) or 1) as ex:
+            rs = list(ex.map(lambda j: run_script(j[3], sub, {}), sjobs))
+        for (i, text, want, _), r in zip(sjobs, rs):
+            ctx.evaluations += 1
+            ctx.count("parallel_submodule_runs")
+            p = os.path.join(sub, "part%d.cpp" % i)
+            got = open(p, encoding="utf-8").read() if os.path.exists(p) else None
+            if r.returncode != 0 or got != want:
+                ctx.spec_fail("a submodule step running in parallel with the other steps of its module failed or produced different output",
+                              input=text, stderr=r.stderr[-300:])
+        now = {k: open(os.path.join(sub, k)).read() for k in os.listdir(sub)}
+        touched = sorted(k for k, v in bystanders.items() if now.get(k) != v)
+        extra = sorted(set(now) - set(bystanders) - {"part%d.cpp" % j[0] for j in sjobs})
+        if touched or extra:
+            ctx.spec_fail("submodule steps modified or removed files they were not asked to produce, or left extra files",
+                          modified_or_removed=touched, extra=extra, input=sjobs[0][1] if sjobs else "")
     finally:
         shutil.rmtree(base, ignore_errors=True)
 
